@@ -89,6 +89,8 @@ def final_of(value: Any) -> Any:
         if value.cancelled():
             return ('cancelled',)
         exc = value.exception()
+        if isinstance(exc, (asyncio.CancelledError, kiwipy.CancelledError)):
+            return ('cancelled',)  # (a cancellation carried as the exception)
         if exc is not None:
             return ('exception', type(exc).__name__)
         value = value.result()
